@@ -225,11 +225,27 @@ theorem ps_ensureSigchld (st : St) : PStep st (ensureSigchld st) := by
   · exact (ps_watchSignal _ _ _ _).trans (PStep.of_eq rfl rfl)
 
 
+theorem ps_setNotify (st : St) (a : Nat) (n : Option Nat) : PStep st (setNotify st a n) := by
+  unfold setNotify
+  exact ps_setW st a { st.getW a with notify := n }
+
+theorem ps_linkNotified (r : St × Nat) (a : Nat) (flags : Nat) : PStep r.1 (linkNotified r a flags) := by
+  unfold linkNotified
+  exact ((ps_setNotify r.1 a (some r.2)).trans (ps_insertWatch _ _ _ _)).trans (ps_with_procs _ _)
+
+theorem ps_clearNotify (st : St) (a : Nat) : PStep st (clearNotify st a) := by
+  unfold clearNotify
+  split
+  · exact ps_setNotify st a none
+  · exact PStep.refl _
+
 theorem ps_linkProcess (st : St) (a : Nat) (pid : Int) (flags : Nat) : PStep st (linkProcess st a pid flags) := by
   unfold linkProcess
   simp only []
   split
-  · exact ((ps_waitpid _ _).trans (ps_setWstatus _ _ _)).trans (ps_watchLater _ _ _ _)
+  · split
+    · exact (((ps_waitpid _ _).trans (ps_setWstatus _ _ _)).trans (ps_watchLater _ _ _ _)).trans (ps_linkNotified _ _ _)
+    · exact ((ps_waitpid _ _).trans (ps_setWstatus _ _ _)).trans (ps_watchLater _ _ _ _)
   · exact ((ps_waitpid _ _).trans (ps_insertWatch _ _ _ _)).trans (ps_with_procs _ _)
 
 
@@ -291,8 +307,8 @@ theorem ps_laterPre (st : St) (a : Nat) : PStep st (laterPre st a) := by
   · exact (ps_setW _ _ _)
   · exact PStep.refl _
 
-theorem ps_watchCancel (st : St) (a : Nat) : PStep st (watchCancel st a) := by
-  unfold watchCancel
+theorem ps_watchCancel0 (st : St) (a : Nat) : PStep st (watchCancel0 st a) := by
+  unfold watchCancel0
   split
   · exact PStep.refl st
   · split
@@ -307,6 +323,14 @@ theorem ps_watchCancel (st : St) (a : Nat) : PStep st (watchCancel st a) := by
             · exact PStep.refl st
           · exact ps_cancelFound st a _ _
 
+
+theorem ps_watchCancel (st : St) (a : Nat) : PStep st (watchCancel st a) := by
+  unfold watchCancel
+  split
+  · split
+    · exact (ps_watchCancel0 st a).trans (ps_watchCancel0 _ _)
+    · exact ps_watchCancel0 st a
+  · exact ps_watchCancel0 st a
 
 theorem ps_with_slots (st : St) (l : List SlotRec) : PStep st { st with slots := l } := PStep.of_eq rfl rfl
 
@@ -506,7 +530,7 @@ theorem ps_processNotify (st : St) (a : Nat) : PStep st (processNotify st a) := 
   unfold processNotify
   split
   · exact (ps_fail _ _)
-  · exact ps_invokeWatch _ _ _ _
+  · exact (ps_clearNotify _ _).trans (ps_invokeWatch _ _ _ _)
 
 
 theorem ps_laterCb (st : St) (a : Nat) : PStep st (laterCb st a) := by
